@@ -64,6 +64,20 @@ def run(tier):
     res.floor("C13.R3", 2)
     res.floor("C13.R4", 8)
     res.floor("C13.R5", 3)
+    if tier == "thorough":
+        # every call sequence up to 6 calls (one protocol; up to 3 for the other seven) against the reference behaviour the property states
+        from .. import builder_sem
+        nseq, probs_, why_ = builder_sem.exhaustive(facts, S.entry_points(facts), 6, 3)
+        res.extra["call_sequences_explored"] = nseq
+        if why_:
+            res.oblige(False)
+            res.violate("C13.R9", "PasetoBuilder", "call sequences not decided", "exhaustive exploration of call sequences could not be completed (fail closed): %s" % why_)
+        for p_ in probs_[:10]:
+            res.oblige(False)
+            res.violate("C13.R9", "PasetoBuilder", p_.split(":")[0][:100], p_)
+        if not why_ and not probs_:
+            res.oblige(True)
+            res.inst("C13.R9", "all %d call sequences over {set_claim(K | nbf | exp | other), acknowledge, set_footer, build} up to 6 calls behave as the reference model (duplicates -> Err naming a duplicated key, exp removed exactly when acknowledged, builds repeatable)" % nseq)
     res.explanation = ("provenance terms of PasetoBuilder::default (exp = now + 1h, iat = nbf = the same now, through the typed constructors); abstract interpretation of verify_ready_to_build over {acknowledged} x {duplicate}: "
                        "exp removed iff acknowledged, at build time, flag persists; who-writes of the acknowledgement flag; no function reachable from build changes the builder's claims / payload state other than that keyed removal "
                        "(defaults persist across builds and the payload is a function of the current claims only)")
